@@ -5,6 +5,8 @@ A *spec* is a JSON-serialisable dict:
     {"version": 1, "seed": int, "world": "thread" | "task", "swarm": {...},
      "programs": [body, ...],          # one per initial actor (actor ids 0..n-1)
      "cancels": [[t, actor], ...],     # task world: simulator-fired task.cancel() at virtual time t
+     "async_at": [n, ...],             # thread world, fine mode: F12 asynchronous exception raised at the n-th
+                                       # line event inside library code (never inside __enter__/__exit__)
      "decisions": null | [int, ...]}   # recorded scheduler choices (replay) or null (draw from PRNG)
 
 A *body* is a list of statements; a statement is a list whose first item is its kind:
@@ -16,8 +18,13 @@ A *body* is a list of statements; a statement is a list whose first item is its 
     ["APPLY", k, mode, fault]    k-th visible handle (mod count); mode in MODES; fault in APPLY_FAULTS
     ["ROUNDTRIP", k, kind]       kind in ROUNDTRIPS; appends a derived handle
     ["TRY", body, catch]         catch in "exc" | "base" | "cancel"
-    ["RAISE", kind]              "exc" | "base"
+    ["RAISE", kind]              kind in RAISES: Exception classes (SimFault, ValueError, KeyError, TimeoutError,
+                                 MemoryError) and BaseException classes (SimBaseFault, GeneratorExit,
+                                 KeyboardInterrupt, SystemExit, CancelledError)
     ["BADCONFIG"]
+    ["CONSTRUCT", uid, kw]       Config(**kw) built and dropped, never entered: must change nothing
+    ["PREBUILD", uid, kw]        c_uid = Config(**kw), kept by the actor
+    ["ENTER", uid, body]         with c_uid as c: body   (each prebuilt object is entered at most once)
     ["SPAWN", cid, body]         thread world: threading.Thread; task world: create_task
     ["JOIN", cid]
     ["CTXRUN", body]             contextvars.copy_context().run(...); body is synchronous
@@ -37,6 +44,9 @@ MODES = ('eager', 'jit', 'fjit')
 APPLY_FAULTS = (None, 'seam-mem', 'seam-rt', 'stdout')
 ROUNDTRIPS = ('flatten', 'reduce', 'compose-reduce')
 SLEEPS = (0, 0, 0.001, 0.01, 0.5, 1, 10, 60)
+RAISES_EXC = ('exc', 'exc', 'value', 'key', 'timeouterr', 'mem')
+RAISES_BASE = ('base', 'base', 'genexit', 'genexit', 'kbd', 'sysexit', 'cancelled')
+RAISES = tuple(sorted(set(RAISES_EXC + RAISES_BASE)))
 ALL_FAULTS = (
     'raise_exc',  # F1
     'raise_base',  # F2
@@ -47,6 +57,7 @@ ALL_FAULTS = (
     'death',  # F8
     'cancel',  # F9
     'timeout',  # F10
+    'async_exc',  # F12
 )
 SYNC_ONLY = {'SLEEP', 'TIMEOUT', 'CALLSOON', 'TOTHREAD'}
 
@@ -56,6 +67,8 @@ def sub_bodies(stmt: list) -> list[list]:
     kind = stmt[0]
     if kind == 'BLOCK':
         return [stmt[3]]
+    if kind == 'ENTER':
+        return [stmt[2]]
     if kind == 'TRY':
         return [stmt[1]]
     if kind == 'SPAWN':
@@ -81,7 +94,7 @@ def count_statements(spec: dict) -> int:
 def max_depth(body: list, depth: int = 0) -> int:
     best = depth
     for stmt in body:
-        inner = depth + 1 if stmt[0] == 'BLOCK' else depth
+        inner = depth + 1 if stmt[0] in ('BLOCK', 'ENTER') else depth
         for sub in sub_bodies(stmt):
             best = max(best, max_depth(sub, inner))
     return best
@@ -132,6 +145,15 @@ def validate(spec: dict) -> None:
                 if stmt[2] == 'cancel' and spec['world'] != 'task':
                     raise ValueError('cancel catch outside the task world')
                 walk(stmt[1], sync)
+            elif kind in ('CONSTRUCT', 'PREBUILD'):
+                if stmt[1] in uids:
+                    raise ValueError(f'duplicate uid {stmt[1]}')
+                uids.add(stmt[1])
+            elif kind == 'ENTER':
+                walk(stmt[2], sync)
+            elif kind == 'RAISE':
+                if stmt[1] not in RAISES:
+                    raise ValueError(f'unknown RAISE kind {stmt[1]}')
             elif kind in ('READ', 'CREATE', 'APPLY', 'ROUNDTRIP', 'RAISE', 'BADCONFIG'):
                 pass
             else:
@@ -187,6 +209,7 @@ class _Gen:
         self.faults = set(swarm['faults'])
         self.spawned = 0
         self.creates = 0
+        self.prebuilt: list[int] = []  # uids built by the actor being generated, not entered yet
 
     # -- settings
     def kw(self) -> dict:
@@ -216,7 +239,8 @@ class _Gen:
                 allow_true = bool(self.faults and 'solver_fail' in self.faults) or self.sw['no_cg1']
                 kw[name] = (rng.random() < 0.5) if allow_true else False
             else:
-                kw[name] = rng.choice(['E', 'P', 'E', 'P', 'Y', 'PY']) if heavy else rng.choice(['E', 'P'])
+                # 'S' is one dict object shared by every block of the run that uses it
+                kw[name] = rng.choice(['E', 'P', 'E', 'P', 'Y', 'PY', 'S', 'S']) if heavy else rng.choice(['E', 'P', 'S'])
         return kw
 
     # -- bodies
@@ -247,9 +271,12 @@ class _Gen:
         rng = self.rng
         sw = self.sw
         heavy = sw['heavy']
-        w: dict[str, float] = {'READ': 3.0, 'CREATE': 2.0 if heavy else 0.9, 'BADCONFIG': 0.4}
+        w: dict[str, float] = {'READ': 3.0, 'CREATE': 2.0 if heavy else 0.9, 'BADCONFIG': 0.4, 'CONSTRUCT': 0.5}
         if depth < sw['depth'] and budget >= 2:
             w['BLOCK'] = 6.0 if depth == 0 else 4.0
+        w['PREBUILD'] = 0.5
+        if self.prebuilt and depth < sw['depth'] and budget >= 2:
+            w['ENTER'] = 2.5
         if budget >= 2:
             w['TRY'] = 1.5 if self.faults else 0.3
             w['CTXRUN'] = 0.7
@@ -285,7 +312,7 @@ class _Gen:
             shapes = list(SHAPES) if heavy else ['single:A', 'single:B', 'blockdiag', 'comp:A', 'neg:B']
             return ['CREATE', rng.choice(shapes)], 1
         if kind == 'APPLY':
-            modes = ['eager'] * 6 + (['jit', 'fjit'] if sw['jit'] else [])
+            modes = ['eager'] * 4 + (['jit', 'jit', 'fjit', 'fjit', 'fjit'] if sw['jit'] else [])
             fault = None
             roll = rng.random()
             if 'seam' in self.faults and roll < 0.12:
@@ -304,18 +331,33 @@ class _Gen:
                 catches += ['cancel', 'cancel']
             return ['TRY', self.body(depth, inner, sync, True), rng.choice(catches)], inner + 1
         if kind == 'RAISE_exc':
-            return ['RAISE', 'exc'], 1
+            return ['RAISE', rng.choice(RAISES_EXC)], 1
         if kind == 'RAISE_base':
-            return ['RAISE', 'base'], 1
+            return ['RAISE', rng.choice(RAISES_BASE)], 1
         if kind == 'BADCONFIG':
             return ['BADCONFIG'], 1
+        if kind == 'CONSTRUCT':
+            self.uid += 1
+            return ['CONSTRUCT', self.uid, self.kw()], 1
+        if kind == 'PREBUILD':
+            self.uid += 1
+            self.prebuilt.append(self.uid)
+            return ['PREBUILD', self.uid, self.kw()], 1
+        if kind == 'ENTER':
+            uid = self.prebuilt.pop(rng.randrange(len(self.prebuilt)))
+            inner = rng.randint(1, max(1, budget - 1))
+            return ['ENTER', uid, self.body(depth + 1, inner, sync, in_try)], inner + 1
         if kind == 'SPAWN':
             self.spawned += 1
             cid = self.next_cid
             self.next_cid += 1
             inner = rng.randint(2, max(2, budget - 1))
-            # a child is a new actor: depth restarts, it is not inside the parent's TRY
-            return ['SPAWN', cid, self.body(0, inner, False, False)], inner + 1
+            # a child is a new actor: depth restarts, it is not inside the parent's TRY, and it
+            # cannot see the parent's prebuilt Config objects
+            saved, self.prebuilt = self.prebuilt, []
+            child = self.body(0, inner, False, False)
+            self.prebuilt = saved
+            return ['SPAWN', cid, child], inner + 1
         if kind == 'CTXRUN':
             inner = rng.randint(1, max(1, budget - 1))
             return ['CTXRUN', self.body(depth, inner, True, in_try)], inner + 1
@@ -350,6 +392,7 @@ def generate(seed: int, profile: dict | None = None) -> dict:
                     body.append(['SLEEP', rng.choice(SLEEPS)])
             programs.append(body)
         else:
+            gen.prebuilt = []
             programs.append(gen.body(0, swarm['budget'], False, False, top=True))
     spec = {
         'version': 1,
@@ -358,8 +401,14 @@ def generate(seed: int, profile: dict | None = None) -> dict:
         'swarm': swarm,
         'programs': programs,
         'cancels': [],
+        'async_at': [],
         'decisions': None,
     }
+    if swarm['fine'] and 'async_exc' in gen.faults:
+        n_stmts = sum(1 for p in programs for _ in iter_statements(p))
+        for _ in range(rng.choice([1, 1, 2])):
+            spec['async_at'].append(rng.randint(1, max(4, 6 * n_stmts)))
+        spec['async_at'] = sorted(set(spec['async_at']))
     if gen.task and 'cancel' in gen.faults:
         ids = actor_ids(spec)
         horizon = _horizon(programs)
